@@ -248,6 +248,7 @@ fn unblock_from(lw: i32, head: i64, tail: i64, alen: usize, s0: (usize, i32), s1
     let c1 = rb.read(|t, b| log_push(&mut log, t, b), i32::MAX);
     let h1 = m.i64_at(HEAD_AT);
     assert!(h1 <= tail, "C07: the consumer position passed the producer position");
+    assert!(h1 % 8 == 0, "C07: after unblock the next read must resume at a record boundary (the consumer position left the 8-byte record grid)");
     if u {
         assert!(h1 > head, "C07: after unblock reports success the next read makes progress");
     } else {
